@@ -1249,7 +1249,7 @@ pub fn drop_panics(site: usize, k: i64, st: &mut FStats) -> R {
     if shadow::active() && block != 0 {
         ensure!(
             shadow::live_layout(block).is_none(),
-            "C01,C07",
+            "C01,C07,C05",
             "faults",
             "{}: the block was not returned to the allocator although its last owner is gone",
             what
